@@ -1741,3 +1741,25 @@ class P(Prop):
             for _ in range(4):
                 ops = rng.sample(self.OPERANDS, 2)
                 yield dict(case, mname=exotic_name(rng, ops, taken=ops), cols=self.rand_cols(rng, n, ops))
+
+
+# ---- tie to the source by translation, split(track, <feature name>, limit) (tools/py2lean.py -> lean/TracklibVerif/Gen/Segmentation.lean split_feature)
+P.tie_modules = getattr(P, "tie_modules", []) + ["TracklibVerif.Tie.C11Split"]
+P.theorems = P.theorems + [
+    ("TracklibVerif.Tie.C11Split", "TV.Tie.C11Split.tie_split_feature", "the Lean translation of the CURRENT source of split(track, name, limit) (marker column of one value per observation, pieces seen as their bounds, Track.length uninterpreted) never raises and returns exactly the (begin, end) numbers of the pieces of the model's splitU, in order, closing piece (begin, n-1) included; hypothesis: the model's limit == 0 is Python's float =="),
+    ("TracklibVerif.Tie.C11Split", "TV.Tie.C11Split.tie_split_feature_feq", "the same with the model's BEq taken to be Py.feq: no hypothesis besides len(source) = track.size()"),
+    ("TracklibVerif.Tie.C11Split", "TV.Tie.C11Split.splitU_pieces_are_ranges", "every numbered piece ((count, b, e), p) of the model's splitU on observations = their indices is the index range [b..e] (the empty closing piece (n, n-1) included), whatever the filters: the bounds determine the piece"),
+    ("TracklibVerif.Tie.C11Split", "TV.Tie.C11Split.loop_tie", "the for loop of split over range(track.size()), for an arbitrary body satisfying the pointwise equation of the generated one, computes the model's goU (pieces, count, begin) with the current piece = [begin..i-1]"),
+]
+
+# translation tie of segmentation() (tools/py2lean.py -> lean/TracklibVerif/Gen/Segmentation.lean -> lean/TracklibVerif/Tie/C11.lean)
+P.tie_modules = getattr(P, "tie_modules", []) + ["TracklibVerif.Tie.C11"]
+P.theorems = P.theorems + [
+    ("TracklibVerif.Tie.C11", "TV.Tie.C11.tie_segmentation", "the Lean translation of the CURRENT source of segmentation() (tested features seen as their columns, result = the log of the writes (i, 1 / 0) of the output feature) equals the model's markersG (isnan = v != v, <= the scalar's, AND mode iff mode == 1) on the rows of the columns, on all arguments, the IndexError of thresholds_max[index] at index == len(thresholds_max) on a non-NaN value included; hypothesis: every tested column has track.size() values"),
+    ("TracklibVerif.Tie.C11", "TV.Tie.C11.tie_segmentation_ok", "where the model returns markers bs, segmentation() returns [(i, 1 if bs[i] else 0) for i in range(n)]"),
+    ("TracklibVerif.Tie.C11", "TV.Tie.C11.tie_segmentation_markers", "the same against the numeric model markers of Model/Split.lean (a NaN value = none): the log of the model's markers, IndexError exactly where the model says none"),
+    ("TracklibVerif.Tie.C11", "TV.Tie.C11.markersG_eq_markers", "with a <= that never raises, markersG is the numeric markers on the rows where a NaN is none (the short-circuit branches of foldCmpG are value-equal to acc && c / acc || c)"),
+    ("TracklibVerif.Tie.C11", "TV.Tie.C11.markersG_error", "with a <= that never raises the only error of markersG is \"index\": the lift of the tie loses nothing"),
+    ("TracklibVerif.Tie.C11", "TV.Tie.C11.inner_tie", "the for loop over enumerate(afs_input), for an arbitrary body satisfying the pointwise equation of the generated one, is the model's foldCmpG on the values of the observation"),
+    ("TracklibVerif.Tie.C11", "TV.Tie.C11.outer_tie", "the for loop over range(track.size()), for an arbitrary body that appends (i, 1 / 0) for the model's marker of row i, is the model's markersG on the remaining rows"),
+]
